@@ -1,0 +1,29 @@
+//!
+//! Verification seam, compiled only with `--cfg ipp_verif` (never in a normal build).
+//!
+//! Lets a test harness hand the blocking client an in-memory transport: ureq passes every `https` connection to
+//! a `TlsConnector`, so a connector installed here receives all HTTP bytes the client sends and supplies all it
+//! reads. The connector is per thread; with none installed the client behaves exactly as shipped.
+//!
+use std::{cell::RefCell, sync::Arc};
+
+thread_local! {
+    static CONNECTOR: RefCell<Option<Arc<dyn ureq::TlsConnector>>> = const { RefCell::new(None) };
+}
+
+/// Install (or with `None` remove) the transport connector used by `IppClient::send` on this thread.
+pub fn set_blocking_connector(connector: Option<Arc<dyn ureq::TlsConnector>>) {
+    CONNECTOR.with(|c| *c.borrow_mut() = connector);
+}
+
+pub(crate) struct Connector(Arc<dyn ureq::TlsConnector>);
+
+impl ureq::TlsConnector for Connector {
+    fn connect(&self, dns_name: &str, io: Box<dyn ureq::ReadWrite>) -> Result<Box<dyn ureq::ReadWrite>, ureq::Error> {
+        self.0.connect(dns_name, io)
+    }
+}
+
+pub(crate) fn blocking_connector() -> Option<Arc<Connector>> {
+    CONNECTOR.with(|c| c.borrow().clone()).map(|c| Arc::new(Connector(c)))
+}
